@@ -9,6 +9,9 @@ CLAIMED = {
  'C16': ("runtime monitor: round-trip + independent reference decoders over exhaustive short inputs, byte runs and seeded random data",
          "Executes the real encoders/decoders on every byte string up to length 2 (quick) / 3 (thorough), every byte value in runs up to 64 KiB and seeded random/structured inputs; oracle = identity and strict reference decoders (own ASCIIHex/ASCII85/LZW, miniz_oxide zlib). Held on the executions observed; exhaustive only for the short-input sub-domain.",
          "Trusts the reference decoders in harness/src/refimpl/codec.rs (self-tested) and miniz_oxide.", "5/C16"),
+ 'C05': ("runtime monitor: independent spec-level encoders -> real decoders (differential against the original bytes), exhaustive sub-domains, corruption fuzzing under a panic monitor",
+         "Random (data, filter chain <=3, predictor geometry, spelling choices) cases encoded by independent encoders and decoded by the real code through enc::decode, Stream::data and a generated file; exhaustive over hex digit pairs, run-length headers, all 2^24 Paeth triples, ASCII85 groups (2^20 stratified quick, all 2^32 thorough) and partial groups; truncated/corrupted encodings must yield value or Err. Held on the executions observed.",
+         "Trusts the reference encoders (self-checked per case against own decoders and miniz_oxide); LZW encoders restricted to initial clear code and table reset at <= 4094 entries.", "5/C05"),
 }
 NOT_YET = "check not built yet in this round (planned, see DESIGN.md §5)"
 
